@@ -181,6 +181,11 @@ CURATED_C01 = [
     ["/{r: /a+/}", "/{s: /a*b?/}", "/{t: /[ab]{2}/}"],
     ["/?b", "/{x}"], ["/?{y}", "/a/{z}"], ["/?{m: **}"],
     ["/{m: **, capture: 1}/e", "/{x}/{y}/{z}", "/{n: **}"], ["/{m: **, capture: 1}/{y}", "/{n: **}"],
+    # many siblings under one node (>12: any re-ordering of the sibling list that is not stable shows here)
+    (["/{d: /[0-9]+/}", "/{w: /[a-z0-9]+/}"] + ["/s%x" % i for i in range(12)], "/", 3),
+    (["/s%x" % i for i in range(6)] + ["/{d: /[0-9]+/}"] + ["/s%x" % i for i in range(6, 12)] + ["/{w: /[a-z0-9]+/}", "/sc", "/{x}", "/{m: **}"], "/", 3),
+    (["/{x}/r", "/{y}/r"] + ["/s%x/r" % i for i in range(12)], "/", 4),
+    (["/{d: /[0-9]+/}/r"] + ["/s%x/r" % i for i in range(7)] + ["/{w: /[a-z0-9]+/}/r"] + ["/s%x/r" % i for i in range(7, 13)] + ["/{y}/r"], "/", 4),
 ]
 
 CURATED_C02 = [
@@ -195,6 +200,8 @@ CURATED_C02 = [
     ["/{a: /.+/}/{b: /[b-z]/}"],
     ["/{a: /(x)+y/}-{b: /z+/}"], ["/{a: /x(y|z)*/}{b: /w/}", "/{c}"], ["/{a: /(x(y)?)+/}.{b: /[a-z]/}"],
     (["/t/{a: /v(x)+/}-{b: /z+/}/e"], "/t/v", 6),
+    # one regex bind next to a literal that contains a regex metacharacter
+    ["/{d: /[0-9]+/}.j"], ["/v.{d: /[0-9]+/}"], ["/a+{d: /[0-9]+/}(b", "/{x}"], ["/$v{d: /[a-c]*/}"],
 ]
 
 # route sets exhibiting defects recorded in DESIGN.md §5 (fixed or listed as known findings)
@@ -269,10 +276,10 @@ for _pid in ("C01", "C02"):
 ROUTER_FILES = ["route/parse.go", "route/oracle.go", "route/oracle_api.go", "flamego/router.go"]
 
 
-def router_job(prog, n, method="GET", prefix="", hv=2, diff=0, twice=0, maporders=0, tag=""):
+def router_job(prog, n, method="GET", prefix="", hv=2, diff=0, twice=0, maporders=0, tag="", prior=0):
     return {"pkg_short": "flamego", "setup": "VH_Router_setup", "body": "VH_Router_serve",
             "params": {"prog": "\n".join(prog), "n": n, "method": method, "prefix": prefix, "hv": hv, "diff": diff,
-                       "twice": twice, "maporders": maporders, "family": tag}, "max_paths": 300000}
+                       "twice": twice, "maporders": maporders, "family": tag, "prior": prior}, "max_paths": 300000}
 
 
 C07_PROGS = [
@@ -283,6 +290,12 @@ C07_PROGS = [
     (["R GET /{m: **, capture: 1}", "R GET /{m: **, capture: 3}/a/{n: **, capture: 2}"], "GET"),
     (["R PUT /"], "?"),
     (["R GET /a", "H 0 X-K=v", "R GET /{x}", "R POST /a"], "?"),
+]
+
+C07_PRIOR = [
+    (["R GET /a", "H 0 X-K=v", "R GET /{x}", "R POST /a"], "/", 2),
+    (["R GET /r/{id: /[0-9]+/}", "H 0 X-K=v", "R GET /r/{m: **}", "R * /r/0"], "/r/", 2),
+    (["R GET,POST /o/?{p}", "H 0 X-K=v", "R GET /o/{q}", "NF"], "/o", 2),
 ]
 
 C07_TREES = [
@@ -299,6 +312,9 @@ def c07_jobs(tier, seed):
                      "params": {"routes": "\n".join(rs), "n": n, "prefix": "", "family": "c07-tree"}, "max_paths": 300000})
     for prog, method in C07_PROGS:
         jobs.append(router_job(prog, n - 1 if method == "?" else n, method=method, twice=1, tag="c07-router"))
+    # history independence: an earlier request for the same path with other headers / another method
+    for prog, pfx, pn in C07_PRIOR:
+        jobs.append(router_job(prog, pn if tier == "quick" else pn + 2, method="?", prefix=pfx, hv=1, twice=1, prior=1, tag="c07-prior"))
     # determinism under every explored map-iteration order (small bound: orders multiply paths)
     jobs.append(router_job(C07_PROGS[3][0], 4 if tier == "quick" else 6, method="GET", twice=1, maporders=1, tag="c07-maporder"))
     if tier == "thorough":
@@ -319,7 +335,8 @@ SPECS["C07"] = Spec(
         "requests start at router.ServeHTTP with an arbitrary URL.Path and Method, which is more than net/http can deliver",
     ],
     bounds=lambda tier: {"request_path": "all byte strings of length 0..%d" % (5 if tier == "quick" else 7),
-                         "method": "all byte strings of length 0..7 (symbolic) or a fixed known method", "headers": "none (C09)",
+                         "method": "all byte strings of length 0..7 (symbolic) or a fixed known method",
+                         "headers": "history jobs: header absent / present with any 0..1-byte value, in an earlier request and in the one observed (matching itself is C09's subject)",
                          "map_order": "one job explores every iteration order of maps with <=3 entries (two orders above)",
                          "outside": "longer paths; panics inside user handlers (C15); net/http's own request parsing"},
     rule="one job per route set / registration program; each explored path is one equivalence class of (method, path)",
@@ -340,14 +357,20 @@ C09_PROGS = [
     (["RS * /w", "H 0 X-K=v"], "?", 2),
     (["RS get,post /lc", "R PUT /lc", "H 0 X-K=v"], "?", 3),
     (["RS Get /m/{x}", "RS POST,get /m/s", "H 1 X-K=v"], "?", 4),
+    # a constraint on a match-all route: it must gate the route however many segments the bind takes
+    (["R GET /a/{m: **}", "H 0 X-K=v", "R GET /a/{x}/{y}"], "GET", 4, "/a/"),
+    (["R GET /{m: **}", "H 0 X-K=v"], "GET", 4),
+    (["R GET /{m: **, capture: 2}", "H 0 X-K=v", "R GET /{x}/{y}/{z}"], "GET", 5),
+    (["R GET /b/?{m: **}", "H 0 X-K=v", "NF"], "GET", 4, "/b"),
+    (["R GET /{m: **}/e", "H 0 X-K=v", "R GET /{x}/{y}/e"], "GET", 5),
 ]
 
 
 def c09_jobs(tier, seed):
     jobs = []
-    for prog, method, n in C09_PROGS:
+    for prog, method, n, *rest in C09_PROGS:
         jobs.append(router_job(prog, n + (0 if tier == "quick" else 2), method=method, hv=2 if tier == "quick" else 3, diff=0,
-                               tag="c09"))
+                               tag="c09", prefix=rest[0] if rest else ""))
     return jobs
 
 
@@ -377,6 +400,10 @@ C10_PROGS = [
     (["R GET /q/r", "R GET /q/?r"], "GET", 5),
     (["R GET /q/?r", "R GET /q/r", "H 0 X-K=v"], "GET", 5),
     (["R GET /a/?", "R GET /a/"], "GET", 4),
+    # several methods registered at once where only some of them are shadowed by an earlier optional route
+    (["R POST /?u", "R * /u"], "?", 2),
+    (["R POST /q/?r", "R GET,POST,PUT /q/r"], "?", 4),
+    (["R * /q/?r", "R DELETE /q/r", "R GET /{x}"], "?", 4),
 ]
 
 
@@ -574,7 +601,12 @@ def c11_jobs(tier, seed):
         masks = [("111100010", 0), ("001111000", 0), ("001000101", 1), ("000000101", 1), ("100001011", 0)]
     else:
         masks = [("111111010", 0), ("111100110", 1), ("001111001", 1), ("101000111", 1), ("010110101", 0), ("111111111", 0)]
-    return [{"pkg_short": "flamego", "body": "VH_C11_program", "params": {"mask": m, "lens": l}, "max_paths": 3000000} for m, l in masks]
+    jobs = [{"pkg_short": "flamego", "body": "VH_C11_program", "params": {"mask": m, "lens": l}, "max_paths": 3000000} for m, l in masks]
+    # group prefixes that share characters with each other and with the route paths, an empty prefix, a bind in a prefix
+    for g1, g2 in (("/gh", "/h"), ("/p", "/pp"), ("/g", ""), ("/{g}", "/hg")):
+        jobs.append({"pkg_short": "flamego", "body": "VH_C11_program", "max_paths": 3000000,
+                     "params": {"mask": "010101110" if tier == "quick" else "011111110", "lens": 0, "g1": g1, "g2": g2}})
+    return jobs
 
 
 SPECS["C11"] = Spec(
@@ -593,7 +625,7 @@ SPECS["C11"] = Spec(
 
 # --------------------------------------------------------------------------- C08
 C08_SEGS = ["N%d", "N%d", "{N%d}", "{N%d: /x+/}", "{N%d: /[0-9]/}-{N%d: /(y)/}", "{N%d: /[a-/}", "{N%d: /*/}", "{N%d: **}",
-            "{N%d: **, capture: 2}", "{**}", "", "{N%d: x}", "v{N%d}"]
+            "{N%d: **, capture: 2}", "{**}", "", "{N%d: x}", "v{N%d}", "{N%d: /[x/}{N%d: /y]/}", "{N%d: /x)/}-{N%d: /(y/}"]
 
 
 def c08_history(rng, nroutes=3, nslots=4):
@@ -623,6 +655,9 @@ C08_CURATED = [
     ["/{N0: **}/N1", "/{N2: **}/N1"], ["/{N0: **}/{N1: **}/N2"],
     ["/{N0: /x+/}", "/{N1: /x+/}"], ["/{N0}", "/{N1}"],
     ["/N0", "/{N1: /[0-9]/}", "/{N2}", "/?N3"], ["/?N0", "/N1"], ["/N0/N1", "/N0/{N2}", "/N0/?{N3: **}"],
+    # expressions that do not compile on their own but repair each other once assembled into one pattern
+    ["/{N0: /[x/}{N1: /y]/}"], ["/{N0: /[x/, N1: /y]/}"], ["/{N0: /x)/}-{N1: /(y/}"],
+    ["/N0/{N1: /[x/}{N2}{N3: /y]/}", "/N0"],
 ]
 
 
